@@ -1,5 +1,5 @@
 (* Model/Power.v — transcription of spindalis/src/solvers/eigen/power_method.rs
-   (tree after repair 5612f82) and of the Arr2D operations it uses
+   (tree after repairs 5612f82 and 734f679) and of the Arr2D operations it uses
    (spindalis/src/utils/arr2D.rs: try_from, full, dot with its 1x1 scalar
    shortcut, Mul = dot().unwrap_or_default(), Div<f64>, transpose, max, min,
    as_scalar_unchecked).
@@ -106,23 +106,31 @@ Section Power.
   Definition as_scalar_unchecked (a : arr) : res T :=
     match ad a with [] => Panic WIndex | x :: _ => Ok x end.
 
-  (* lines 25-28: start vector of ones, first product, first scaling *)
+  (* fn rayleigh_quotient: x^T (A x) / x^T x, two 1 x 1 products *)
+  Definition rayleigh_quotient (A v : arr) : res T :=
+    let numerator := amul (atranspose v) (amul A v) in
+    let denominator := amul (atranspose v) v in
+    let* nu := as_scalar_unchecked numerator in
+    let* de := as_scalar_unchecked denominator in
+    Ok (ndiv nu de).
+
+  (* before the loop: start vector of ones, first product, first scaling
+     (used to normalise only), first eigenvalue estimate = Rayleigh quotient of
+     the first normalised vector *)
   Definition pm_init (A : arr) : res (T * arr) :=
     let initial := afull n1 (ah A) 1 in
     let y := amul A initial in
-    let* ev := scaling_component y in
-    Ok (ev, adivs y ev).
+    let* first_scaling := scaling_component y in
+    let x := adivs y first_scaling in
+    let* ev := rayleigh_quotient A x in
+    Ok (ev, x).
 
-  (* one loop body, lines 31-42: (next_eigenvalue, normalised_eigenvector, ea) *)
+  (* one loop body: (next_eigenvalue, normalised_eigenvector, ea) *)
   Definition pm_step (A : arr) (ev : T) (x : arr) : res (T * arr * T) :=
     let y := amul A x in
     let* nv := scaling_component y in
     let nx := adivs y nv in
-    let numerator := amul (atranspose nx) (amul A nx) in
-    let denominator := amul (atranspose nx) nx in
-    let* nu := as_scalar_unchecked numerator in
-    let* de := as_scalar_unchecked denominator in
-    let next := ndiv nu de in
+    let* next := rayleigh_quotient A nx in
     let ea := nabs (ndiv (nsub next ev) next) in
     Ok (next, nx, ea).
 
@@ -161,7 +169,8 @@ Section Power.
 
   (* specification-level trace (not extracted): the pair (eigenvalue,
      eigenvector) after k executions of the loop body; k = 0 is the state
-     before the loop, whose eigenvalue is the first scaling component *)
+     before the loop, whose eigenvalue is the Rayleigh quotient of the first
+     normalised vector *)
   Fixpoint pm_state (A : arr) (k : nat) : res (T * arr) :=
     match k with
     | O => pm_init A
